@@ -99,9 +99,15 @@ def model_input(case: dict, real: list[str]):
     if case.get("kind") in ("aiter", "aiterbuf"):
         return None
     cfg = case["cfg"]
-    if cfg["path"] == "bufhead":
-        return None      # user-defined buffered serializer with a reserved head area (non-zero start position): oracle only
-    head = (f"tmo {cfg['kind']} {cfg['layer']} {cfg['flavour']} {cfg['path']} {cfg['bufsize']} {_t(cfg['ri'])} "
+    mpath = cfg["path"]
+    if mpath == "bufhead":
+        # user-defined buffered serializer with a reserved head area, consumed chunk by chunk: its observable behaviour in the
+        # receive loop is the model's generic `recvLoop` with room = the (fixed) write view and the separator consumer - i.e.
+        # the "copy" instance with bufsize = VIEW.  (Not compared when the size limit of the toy serializer is reached.)
+        if any(ln == "ret parse" for ln in real):
+            return None
+        mpath = "copy"
+    head = (f"tmo {cfg['kind']} {cfg['layer']} {cfg['flavour']} {mpath} {cfg['bufsize']} {_t(cfg['ri'])} "
             f"{s11.SEP.hex()} {s11.LIMIT} {1 if c04.code_is_fixed() else 0}")
     ops: list[str] = []
     for op in case["ops"]:
